@@ -303,13 +303,25 @@ def r04_6(ctx, run, rule='R04.6'):
                     sides = arg_sides(inner, b)[:2]
                     lens = all(is_length_term(a, b, f) for a in inner[2][:2])
                     ok = sides == ['L', 'R'] and lens
-                    (run.proved if ok else run.violation)(rule, fn, 'tie-break', 'left_length.cmp(&right_length) after a common prefix of equal elements' if ok else
-                                                           f'after equal common prefixes the result is {show(inner)[:80]}, not left length vs right length', f'{b.file}:{b.line}')
+                    if ok:
+                        run.proved(rule, fn, 'tie-break', 'left_length.cmp(&right_length) after a common prefix of equal elements', f'{b.file}:{b.line}')
+                    elif sides == ['R', 'L'] or (sides[:1] == sides[1:2] and sides and sides[0] in ('L', 'R')):
+                        run.violation(rule, fn, 'tie-break', f'after equal common prefixes the result is {show(inner)[:80]}: the operands are not (left, right) in this order', f'{b.file}:{b.line}')
+                    elif sides == ['L', 'R']:
+                        run.undecided(rule, fn, 'tie-break', f'after equal common prefixes the result is {show(inner)[:80]}: left against right, but the operands were not recognised as the two '
+                                      'element counts (carried in a struct or computed by a helper?): not decided', f'{b.file}:{b.line}')
+                    else:
+                        run.undecided(rule, fn, 'tie-break', f'after equal common prefixes the result is {show(inner)[:80]}: the sides of its operands could not be traced to the two documents', f'{b.file}:{b.line}')
                 else:
                     # an element comparison result handed back: must be the value compared with Equal on this path
                     ne = [c for c in p.conds if c[0][0] == 'call' and canon(c[0][1]).endswith(('PartialEq::ne', 'PartialEq::eq'))]
                     el += 1
                     ok = any(deref_all(c[0][2][0]) == inner or inner in [deref_all(x) for x in c[0][2]] for c in ne) or is_call(inner, 'Try::branch') or inner[0] in ('field', 'downcast')
-                    (run.proved if ok else run.violation)(rule, fn, 'element-result', 'the first non-Equal element/key/value order is returned unchanged' if ok else
-                                                           f'a non-Equal element result is returned as {show(inner)[:80]}', f'{b.file}:{b.line}')
+                    if ok:
+                        run.proved(rule, fn, 'element-result', 'the first non-Equal element/key/value order is returned unchanged', f'{b.file}:{b.line}')
+                    elif is_call(inner, 'Ordering::reverse') or (agg_variant(inner) and inner[1][1].endswith('cmp::Ordering')):
+                        run.violation(rule, fn, 'element-result', f'a non-Equal element result is returned as {show(inner)[:80]}', f'{b.file}:{b.line}')
+                    else:
+                        run.undecided(rule, fn, 'element-result', f'the value returned from inside the element loop ({show(inner)[:80]}) was not recognised as the element comparison result tested on '
+                                      'this path: not decided', f'{b.file}:{b.line}')
         run.floor(rule, f'tie-break returns in {fn.split("::")[-1]}', tb, 1)
